@@ -465,7 +465,7 @@ def settings_cases(ctx: Ctx, W: Dict[str, str]) -> List[Dict[str, Any]]:
         cases.append({"kind": kind, "cfg": {"tool": {"black": {}}}, "label": f"{kind}/tool-only", "expect": {"cls": "MissingConfiguration", "mention": "ariadne-codegen", "trigger": None}})
         # pairs of violations: which check fires first (correspondence only)
         rng = ctx.sub_rng("pairs-" + kind)
-        for _ in range(ctx.budget(250, 2500)):
+        for _ in range(ctx.budget(500, 4000)):
             blabel, base = rng.choice(bases)
             sec = copy.deepcopy(base)
             labels = []
@@ -750,17 +750,25 @@ CALLEE_PHASE = {
 
 
 def phase_of(exc: BaseException) -> str:
+    """phase of main.client / main.graphql_schema in which the exception was raised: the first frame below the
+    command's own frame that belongs to a known callee (helper functions in between do not matter)"""
     frames = traceback.extract_tb(exc.__traceback__)
     for i, fr in enumerate(frames):
         if fr.filename.replace("\\", "/").endswith("ariadne_codegen/main.py") and fr.name in ("client", "graphql_schema"):
-            if i + 1 >= len(frames):
-                return "main"
-            nxt = frames[i + 1]
-            if nxt.name == "generate":
-                if i + 2 < len(frames) and frames[i + 2].name in ("_validate_unique_file_names", "_include_exceptions"):
-                    return "generatePre"
-                return "generateWrite"
-            return CALLEE_PHASE.get(nxt.name, "unknown:" + nxt.name)
+            rest = frames[i + 1:]
+            for j, nxt in enumerate(rest):
+                fname = nxt.filename.replace("\\", "/")
+                if nxt.name == "generate" and fname.endswith("client_generators/package.py"):
+                    if any(f.name in ("_validate_unique_file_names", "_include_exceptions") for f in rest[j + 1:]):
+                        return "generatePre"
+                    return "generateWrite"
+                if nxt.name == "__init__":
+                    if fname.endswith("plugins/manager.py"):
+                        return "plugins"
+                    continue
+                if nxt.name in CALLEE_PHASE:
+                    return CALLEE_PHASE[nxt.name]
+            return "unknown:" + (rest[0].name if rest else "main")
     return "outside-main"
 
 
@@ -1222,6 +1230,10 @@ def judge_plans(ctx: Ctx, st: Optional[LeanStatus], res: Result, plans: List[Dic
                 res.mismatches.append(Mismatch(tag, shown, iv, mv, trigger=inside))
             if sorted(model[i].get("triggers", [])) != sorted(active):
                 res.mismatches.append(Mismatch(tag + "-triggers", shown, sorted(active), sorted(model[i].get("triggers", []))))
+        exp = plan.get("expect") or {}
+        if exp.get("invalid") == "schema" and r["line"]["schema"]["buildError"] is None and r["line"]["schema"]["trueErrors"] == 0:
+            res.count(f"{tag}:labelled-invalid-schema-but-graphql-core-finds-it-valid (not judged)")
+            plan = {**plan, "expect": None}
         failed = oracle_plan(plan, obs)
         for sig, detail in failed:
             res.failures.append(Failure(sig, pick_trigger(active, sig, findings), shown, detail))
@@ -1385,7 +1397,7 @@ def run(ctx: Ctx, st: Optional[LeanStatus]) -> Result:
     spec_checks(ctx, st, res)
     run_settings(ctx, st, res)
     ctx.log(f"settings correspondence done: {res.evaluations} evaluations, {len(res.mismatches)} mismatches")
-    plans = fixed_plans() + pair_plans(ctx, ctx.budget(60, 700))
+    plans = fixed_plans() + pair_plans(ctx, ctx.budget(150, 1200))
     if ctx.thorough:
         extra = []
         for p in fixed_plans():
